@@ -219,7 +219,7 @@ def dump_visit(root) -> dict:
     return out
 
 
-def probes(root, paths, absent=()):
+def probes(root, paths, absent=(), visit_stop=True):
     """len/in/lookup observations beyond the dumps."""
     out = {}
     for p in paths:
@@ -234,7 +234,7 @@ def probes(root, paths, absent=()):
             out["len:" + p] = len(n)
     out["len:/"] = len(root)
     # visit/visititems stop as soon as the callback returns something that is not None -- also falsy values
-    for stopval in (0, "", False, b""):
+    for stopval in ((0, "", False, b"") if visit_stop else ()):
         seen = []
 
         def cb(name, node=None, _s=stopval, _seen=seen):
@@ -260,7 +260,7 @@ def full_dump(root, absent=(), probe_paths=None):
         diff = sorted(k for k in set(a2) | set(b) if a2.get(k) != b.get(k))
         raise WalkMismatch(f"keys()/[] walker and visititems disagree at {diff[:4]}")
     pp = list(a.keys()) if probe_paths is None else [p for p in probe_paths if p in a]
-    return a, probes(root, pp, absent)
+    return a, probes(root, pp, absent, visit_stop=probe_paths is None)
 
 
 class WalkMismatch(Exception):
